@@ -14,7 +14,8 @@ PYTHONPATH=$WT /venv/bin/python $SRC/demo.py >/dev/null 2>&1; res "demo_without_
 if ! git apply $SRC/patch.diff 2>>$SRC/verify.log; then res "patch_applies=no"; git -C /repo worktree remove --force $WT; exit 1; fi
 res "patch_applies=yes"
 PYTHONPATH=$WT /venv/bin/python $SRC/demo.py >/dev/null 2>&1; res "demo_with_patch_exit=$?"
-PYTHONPATH=$WT /venv/bin/python -m pytest -q -p no:cacheprovider --timeout=900 -k "not gpu" 2>&1 | tail -3 | grep -E "passed|failed" >> $SRC/verify.log
-PYTHONPATH=$WT /venv/bin/python -m pytest -q -p no:cacheprovider --timeout=900 -k "not gpu" 2>&1 | grep FAILED | grep -v test_generate_rough_bergomi >> $SRC/verify.log
+OMP_NUM_THREADS=2 PYTHONPATH=$WT /venv/bin/python -m pytest -q -p no:cacheprovider --timeout=900 -k "not gpu" > $SRC/suite_verify.txt 2>&1
+tail -3 $SRC/suite_verify.txt | grep -E "passed|failed" >> $SRC/verify.log
+grep FAILED $SRC/suite_verify.txt | grep -v test_generate_rough_bergomi >> $SRC/verify.log
 cd /; git -C /repo worktree remove --force $WT
 cat $SRC/verify.log
